@@ -184,12 +184,13 @@ EXTRA15 = {
  "C10": " The search loop of findSublogger is left early only when something was found (R10.5); an option argument of newentry is consumed (R10.3).",
  "C11": " R04.9 (member separator independent of the member) is an obligation here.",
  "C12": " No swallowing deferred recover between the entry points and the terminating function (R12.1); the tag-width setter stores no width outside the tag tables (R06.3).",
- "C13": " The fan-out Write and the sink do not call themselves (R13.1).",
+ "C13": " The fan-out Write and the sink do not call themselves (R13.1); a pointer only errors.As sets is dereferenced on its success edge only (R13.3).",
+ "C20": " The zero duration reaches a digit writer in both styles, decided by walking the formatter with d = 0 (R20.1).",
  "C14": " A prefix tested with HasPrefix is cut at its own length (R14.6); package-level forwarders pass their parameters without arithmetic (R14.3).",
  "C15": " Every round of WithAttrs converts its attribute (R15.4); R05.10, R05.5 and R05.1 are obligations here.",
  "C16": " Constant layouts that can reach the layout field in SetTimeFormat have nanosecond precision and a zone (R16.4); R02.3 is an obligation here.",
  "C17": " A tag-table entry is returned only on the hit edge of its lookup (R17.6).",
- "C18": " The regexp list is rewritten only on the equal edge of the comparison with the argument, never emptied with clear() (R18.6); prefix cuts agree with the prefix tested (R18.2).",
+ "C18": " The regexp list is rewritten only on the equal edge of the comparison with the argument, never emptied with clear() (R18.6); prefix cuts agree with the prefix tested (R18.2); R02.8 (index and re-slice bounds, checkpath included) is an obligation here.",
 }
 for k, v in EXTRA15.items():
     if k in P:
